@@ -44,8 +44,15 @@ def main():
     try:
         r = sh(['git', '-C', wt, 'apply', os.path.abspath(a.patch)])
         if r.returncode:
-            print('PATCH DOES NOT APPLY:', r.stdout.decode()[-400:])
-            return 3
+            # the patch was written against an earlier commit of /repo: try a 3-way merge
+            r3 = sh(['git', '-C', wt, 'apply', '--3way', os.path.abspath(a.patch)])
+            if r3.returncode:
+                print('PATCH DOES NOT APPLY:', r.stdout.decode()[-300:], r3.stdout.decode()[-300:])
+                return 3
+            print('(applied with --3way)')
+            out['applied_3way'] = True
+            d = sh(['git', '-C', wt, 'diff', 'HEAD'])
+            out['rebased_patch'] = d.stdout.decode()
         env = dict(os.environ, FXPVERIF_REPO=wt, VERIF_SEED=a.seed)
         if a.baseline:
             r = sh([os.path.join(VERIF, 'tools', 'baseline.sh'), wt])
